@@ -93,6 +93,12 @@ func (ref Reference) CompletionAtPos(ctx context.Context, pos hcl.Pos) []lang.Ca
 		return []lang.Candidate{}
 	}
 
+	if pos.Byte < editRng.Start.Byte {
+		// cursor between '=' and the expression: nothing typed yet
+		editRng = hcl.Range{Filename: editRng.Filename, Start: pos, End: pos}
+		prefixRng = editRng
+	}
+
 	prefix := string(prefixRng.SliceBytes(file.Bytes))
 
 	candidates := make([]lang.Candidate, 0)
